@@ -145,16 +145,6 @@ Fixpoint take_digits (s : bytes) (acc : N) (cnt : nat) : N * nat * bytes :=
   | [] => (acc, cnt, s)
   end.
 
-Definition xdigit_val (b : N) : N :=
-  if is_digit b then b - 48 else if (97 <=? b) then b - 87 else b - 55.
-
-Fixpoint take_xdigits (s : bytes) (acc : N) (cnt : nat) : N * nat * bytes :=
-  match s with
-  | d :: s' => if is_xdigit d then take_xdigits s' (16 * acc + xdigit_val d) (S cnt) else (acc, cnt, s)
-  | [] => (acc, cnt, s)
-  end.
-
-
 (* small scanners (written with tests instead of numeral patterns: those extract to very large matches) *)
 Definition eat (c : N) (s : bytes) : option bytes :=
   match s with b :: r => if b =? c then Some r else None | [] => None end.
@@ -176,31 +166,6 @@ Definition parse_mantissa (s : bytes) : option (Q * bytes) :=
   | None => if (c1 =? 0)%nat then None else Some (inject_Z (Z.of_N v1), r1)
   end.
 
-Definition parse_xmantissa (s : bytes) : option (Q * bytes) :=
-  let '(v1, c1, r1) := take_xdigits s 0 0%nat in
-  match eat 46 r1 with
-  | Some r1' =>
-      let '(v2, c2, r2) := take_xdigits r1' 0 0%nat in
-      if (c1 + c2 =? 0)%nat then None
-      else Some (Qred (Qmake (Z.of_N (v1 * 16 ^ N.of_nat c2 + v2)) (Z.to_pos (16 ^ Z.of_nat c2))), r2)
-  | None => if (c1 =? 0)%nat then None else Some (inject_Z (Z.of_N v1), r1)
-  end.
-
-(* optional exponent  <mark>[+-]?digits ; when it is malformed nothing is consumed *)
-Definition parse_exp (mark1 mark2 : N) (s : bytes) : Z * bytes :=
-  match s with
-  | m :: s1 =>
-      if (m =? mark1) || (m =? mark2) then
-        let '(neg, s2) := eat_sign true s1 in
-        let '(v, c, r) := take_digits s2 0 0%nat in
-        if (c =? 0)%nat then (0%Z, s) else ((if neg then - Z.of_N v else Z.of_N v)%Z, r)
-      else (0%Z, s)
-  | [] => (0%Z, s)
-  end.
-
-Definition pow10 (e : Z) : Q :=
-  if (0 <=? e)%Z then inject_Z (10 ^ e) else 1 # (Z.to_pos (10 ^ (- e))).
-
 Fixpoint drop_while (f : N -> bool) (s : bytes) : bytes :=
   match s with
   | b :: s' => if f b then drop_while f s' else s
@@ -218,73 +183,20 @@ Definition spec_s2n (prec : Z) (s : bytes) : xnum :=
   | _ => XNaN
   end.
 
-(* cast_string_to_number(): strtold() must consume the whole string, errno must stay 0.
-   strtold: leading isspace(), optional sign, then  inf | infinity | nan[(chars)] (any case), a hexadecimal
-   floating constant, or a decimal one with optional exponent. NaN results need no detail: every failure is NaN too.
-   ERANGE (overflow, underflow) is approximated by decimal exponent limits far outside what the generators use. *)
-Definition c_isspace (b : N) : bool := (b =? 32) || ((9 <=? b) && (b <=? 13)).
-Definition c_lower (b : N) : N := if (65 <=? b) && (b <=? 90) then b + 32 else b.
-
-Fixpoint ci_prefix (p s : bytes) : option bytes :=
-  match p, s with
-  | [], _ => Some s
-  | x :: p', y :: s' => if x =? c_lower y then ci_prefix p' s' else None
-  | _ :: _, [] => None
-  end.
-
-(* value of the hexadecimal constant q * 2^e, None when strtold() reports ERANGE: the long double exponent range is
-   2^-16445 .. 2^16384. The test is exact where it fires (floor(log2 v) lies in [d, d+1] for d below); magnitudes
-   between 2^16383 and 2^16401 and between 2^-16460 and 2^-16382 (overflow boundary, subnormal numbers) are NOT
-   modelled, the generators stay away from them. [len] bounds the number of mantissa digits, so that a huge exponent
-   is decided without computing the power. *)
-Definition hex_value (len : nat) (q : Q) (e : Z) : option Q :=
-  if q_is_zero q then Some q
-  else
-    let lim := (20000 + 4 * Z.of_nat len)%Z in
-    if ((e <? - lim) || (lim <? e))%Z then None
-    else
-      let v := Qmult q (pow2 e) in
-      let d := (Z.log2 (Qnum v) - Z.log2 (Zpos (Qden v)))%Z in
-      if ((16400 <? d) || (d <? -16460))%Z then None else Some v.
-
-Definition parse_hex (s2 : bytes) : option (option Q * bytes) :=
-  match s2 with
-  | z :: x :: r => if (z =? 48) && ((x =? 120) || (x =? 88)) then
-                     match parse_xmantissa r with
-                     | Some (q, r') => let '(e, r'') := parse_exp 112 80 r' in Some (hex_value (length s2) q e, r'')
-                     | None => None
-                     end
-                   else None
-  | _ => None
-  end.
-
+(* cast_string_to_number() since /repo b906576: skip XML white space, an optional '-', digits, an optional '.' with
+   digits, skip XML white space; NaN unless a digit was seen and the end of the string is reached; then strtold() of
+   the text from the sign on, which by then is a decimal constant without exponent (strtold stops at the trailing
+   white space): the nearest long double of the exact decimal value. *)
 Definition impl_s2n (prec : Z) (s : bytes) : xnum :=
-  let s1 := drop_while c_isspace s in
-  let '(neg, s2) := eat_sign true s1 in
-  match ci_prefix [105; 110; 102; 105; 110; 105; 116; 121] s2 with        (* infinity *)
-  | Some [] => XInf neg
-  | Some _ => XNaN
-  | None =>
-  match ci_prefix [105; 110; 102] s2 with                                  (* inf *)
-  | Some [] => XInf neg
-  | Some _ => XNaN
-  | None =>
-  match parse_hex s2 with
-  | Some (Some q, []) => XFin neg (rnd prec (Qred q))
-  | Some _ => XNaN
-  | None =>
-      match parse_mantissa s2 with
-      | Some (q, r) =>
-          let '(e, r') := parse_exp 101 69 r in
-          match r' with
-          | [] => if q_is_zero q then XFin neg 0
-                  else if ((e <? -4900) || (4900 <? e))%Z then XNaN
-                  else XFin neg (rnd prec (if (e =? 0)%Z then q else Qred (Qmult q (pow10 e))))
-          | _ => XNaN
-          end
-      | None => XNaN
-      end
-  end end end.
+  let s1 := drop_while is_xmlws s in
+  let '(neg, s2) := eat_sign false s1 in
+  match parse_mantissa s2 with
+  | Some (q, r) => match drop_while is_xmlws r with
+                   | [] => XFin neg (rnd prec q)
+                   | _ :: _ => XNaN
+                   end
+  | None => XNaN
+  end.
 
 (* decimal digits of a non-negative integer *)
 Definition Z_to_dec (z : Z) : bytes := N_to_dec (Z.to_N z).
@@ -322,6 +234,10 @@ Fixpoint shortest_decimals (prec : Z) (m : Q) (j fuel : nat) : nat :=
       if Qeq_bool (rnd prec (Qmake u (Z.to_pos (10 ^ Z.of_nat j)))) m then j else shortest_decimals prec m (S j) f
   end.
 
+(* bound of the search for the number of decimals: no long double needs more (LYXP_NUM_FRAC_DIGITS_MAX, the
+   smallest positive long double is about 3.6e-4951) *)
+Definition frac_digits_max : nat := 4951.
+
 (* XPath 1.0 section 4.2 string(): NaN, 0 for both zeros, Infinity, -Infinity, integers without point and without
    leading zeros, otherwise decimal notation with at least one digit before and after the point and as many more
    digits as needed to distinguish the number from all other IEEE 754 values *)
@@ -335,13 +251,18 @@ Definition spec_n2s (prec : Z) (x : xnum) : bytes :=
         let sign : bytes := if neg then [45] else [] in
         if q_is_int m then sign ++ Z_to_dec (q_int_val m)
         else
-          let j := shortest_decimals prec m 1 60 in
+          let j := shortest_decimals prec m 1 frac_digits_max in
           sign ++ fixed_dec (round_dec m j) j
   end.
 
-(* lyxp_set_cast() LYXP_SET_NUMBER -> LYXP_SET_STRING: '%lld' when (long long)num == num, otherwise '%03.1Lf':
-   exactly ONE fraction digit (rounded half to even on the exact binary value); integers outside the long long range
-   are printed with '.0'. *)
+(* lyxp_set_cast() LYXP_SET_NUMBER -> LYXP_SET_STRING since /repo 54bf5db: '%lld' when the number is in the long long
+   range and (long long)num == num, otherwise '%.*Lf' with the precision 0, 1, 2, ... until strtold() of the text
+   gives the number back (at most LYXP_NUM_FRAC_DIGITS_MAX). '%.*Lf' rounds the exact binary value half to even;
+   with precision 0 no decimal point is printed. *)
+(* '%.*Lf': no point when the precision is 0 *)
+Definition print_dec (u : Z) (j : nat) : bytes :=
+  match j with O => Z_to_dec u | S _ => fixed_dec u j end.
+
 Definition ll_min : Z := (- 2 ^ 63)%Z.
 Definition ll_max : Z := (2 ^ 63 - 1)%Z.
 
@@ -355,7 +276,9 @@ Definition impl_n2s (x : xnum) : bytes :=
         let sign : bytes := if neg then [45] else [] in
         let v := (if neg then - q_int_val m else q_int_val m)%Z in
         if q_is_int m && (ll_min <=? v)%Z && (v <=? ll_max)%Z then sign ++ Z_to_dec (q_int_val m)
-        else sign ++ fixed_dec (round_dec m 1) 1
+        else
+          let j := shortest_decimals 64 m 0 (S frac_digits_max) in
+          sign ++ print_dec (round_dec m j) j
   end.
 
 (* ------------------------------------------------------------------------------------------------ *)
@@ -517,6 +440,9 @@ Inductive ltype : Type :=
 | TyStr                               (* string, boolean, enumeration: no canonization *)
 | TyInt (lo hi : Z)                   (* integer types *)
 | TyDec (fd : nat).                   (* decimal64 with fd fraction digits *)
+
+(* isspace() of C *)
+Definition c_isspace (b : N) : bool := (b =? 32) || ((9 <=? b) && (b <=? 13)).
 
 (* integer: white space, optional sign, digits, white space; in range -> decimal without sign for 0 *)
 Definition canon_int (lo hi : Z) (s : bytes) : option bytes :=
